@@ -250,6 +250,9 @@ class LSMTree(Entity):
 
         # Immutable memtables awaiting flush (for reads during flush)
         self._immutable_memtables: list[Memtable] = []
+        # SSTables already written for immutable memtables that cannot be
+        # installed yet because an older memtable is still being flushed.
+        self._written_sstables: dict[Memtable, SSTable] = {}
         # WAL sequence numbers whose entries are not yet in an installed
         # SSTable, mapped to the memtable holding the entry (None while the
         # write is between its WAL append and its memtable insert).
@@ -533,16 +536,21 @@ class LSMTree(Entity):
         pages = max(1, sstable.key_count // 16)
         yield pages * self._sstable_write_latency
 
-        # Add to L0
-        self._levels[0].append(sstable)
-        self._total_memtable_flushes += 1
+        # Install in L0 in the order the memtables were frozen, not in the
+        # order the writes finish: a memtable that grew past a page boundary
+        # under concurrent puts takes longer than its successor, and L0 is
+        # read newest-last. An SSTable written early waits (its immutable
+        # memtable keeps serving reads) until all older ones are installed.
+        if old_memtable in self._immutable_memtables:
+            self._written_sstables[old_memtable] = sstable
+        while self._immutable_memtables and self._immutable_memtables[0] in self._written_sstables:
+            memtable = self._immutable_memtables.pop(0)
+            self._levels[0].append(self._written_sstables.pop(memtable))
+            self._total_memtable_flushes += 1
 
-        # Remove from immutable list
-        self._immutable_memtables.remove(old_memtable)
-
-        # Truncate WAL
-        if self._wal is not None:
-            self._truncate_wal_after_flush(old_memtable)
+            # Truncate WAL
+            if self._wal is not None:
+                self._truncate_wal_after_flush(memtable)
 
         logger.debug(
             "[%s] Flushed memtable to L0 SSTable(%d keys), L0 now has %d SSTables",
@@ -716,6 +724,7 @@ class LSMTree(Entity):
         if self._clock is not None:
             self._memtable.set_clock(self._clock)
         self._immutable_memtables.clear()
+        self._written_sstables.clear()
         self._wal_pending.clear()
 
         # Crash WAL — discard unsynced entries
